@@ -103,7 +103,10 @@ Section Trig.
                        (* an original symlink is restored whatever took its place
                           (restoreSymlink removes it first): only files and
                           directories are affected by D13 *)
+                       (* ... and since fix D23 a symlink that took the place of a
+                          file or directory is removed before the original is copied back *)
                        negb (kind_eqb (fi_kind fi) (fi_kind fi')) && negb (kind_eqb (fi_kind fi) KLink)
+                       && negb (kind_eqb (fi_kind fi') KLink)
                    | None => false
                    end
                | None => false
